@@ -217,6 +217,9 @@ def run_case(desc, ctx):
                 bad(f"negative value {v1!r}")
         # ---- zero when every member equals the real data (no filters: they act on the simulated side only)
         zero_kind = kind in ("minkowski", "fourier") or (kind == "msm" and d["cov"] == "identity" and not d["standardise"])
+        if zero_kind and kind == "fourier" and d["filter"] == "gaussian" and round(d["f"] * (N // 2 + 1)) == 0:
+            zero_kind = False  # Gaussian length scale rounds to 0: the filter (and so the loss) is undefined (0/0), as in C07's guard
+            cnt("zero_equal_skipped_sigma0")
         if zero_kind:
             try:
                 d0 = dict(d, filters=None)
